@@ -117,6 +117,8 @@ class Interp:
     def import_name(self, modname, name):
         if modname in self.N.STDLIB:
             tbl = self.N.STDLIB[modname](self)
+            if (modname + "." + name) in self.N.STDLIB:
+                return self.import_module(modname + "." + name)
             if name not in tbl:
                 raise Unsupported("unmodelled stdlib name %s.%s" % (modname, name))
             return tbl[name]
@@ -955,8 +957,13 @@ def _as_load_uncached(t):
     return t2
 
 
-def explore(task, max_paths=4000):
-    """Run task() under every choice vector; returns [(log, status, value)] with status 'ok'/'raise'."""
+TRUNCATED = []
+
+
+def explore(task, max_paths=4000, truncate=False):
+    """Run task() under every choice vector; returns [(log, status, value)] with status 'ok'/'raise'.
+    With truncate=True an exploration that exceeds max_paths stops there and is recorded in TRUNCATED
+    (violations found on the explored paths are real; absence of violations then proves nothing)."""
     stack = [[]]
     out = []
     n = 0
@@ -966,6 +973,9 @@ def explore(task, max_paths=4000):
         World.trace = {}
         n += 1
         if n > max_paths:
+            if truncate:
+                TRUNCATED.append("exploration cut after %d paths" % max_paths)
+                return out
             raise Unsupported("path explosion (> %d paths)" % max_paths)
         try:
             res = ("ok", task())
